@@ -56,7 +56,7 @@ def generate(R: Draw, tier: str) -> dict:
         n_ops = R.int(1, 8 if tier == "quick" else 14)
         for _ in range(n_ops):
             op = go.gen_op(R, g, lib, cur, HIST_OPS)
-            if not _declared_only(op):
+            if not _declared_only(op) or not go.op_in_domain(rs, P.plain(cur), op, declared_attrs_only=True):
                 continue
             ops.append(op)
             tr, st = go.run_history(lib, cur, [op])
@@ -194,7 +194,7 @@ def check(case: dict, ctx: Ctx) -> None:
     sub = {"mode": "c04", "schema": case["schema"]}
     for j, op in enumerate(case["ops"]):
         n_before = len(tr.steps)
-        if not go.op_in_domain(rs, P.plain(tr.doc), op):
+        if not go.op_in_domain(rs, P.plain(tr.doc), op, declared_attrs_only=True):
             statuses.append("skipped")
             continue
         try:
